@@ -473,8 +473,13 @@ func (ndb *nodeDB) deleteVersion(version int64, cache *rootkeyCache) error {
 		ndb.logger.Error("Error while pruning, moving on the the next version in the store", "version missing", version, "next version", version+1, "err", err)
 	}
 
+	// rootOrphaned tells whether the root node (version, 1) is removed together with the version.
+	rootOrphaned := false
 	if rootKey != nil {
 		if err := ndb.traverseOrphansWithRootkeyCache(cache, version, version+1, func(orphan *Node) error {
+			if !orphan.isLegacy && orphan.nodeKey.version == version && orphan.nodeKey.nonce == 1 {
+				rootOrphaned = true
+			}
 			if orphan.nodeKey.nonce == 0 && !orphan.isLegacy {
 				// if the orphan is a reformatted root, it can be a legacy root
 				// so it should be removed from the pruning process.
@@ -507,13 +512,10 @@ func (ndb *nodeDB) deleteVersion(version int64, cache *rootkeyCache) error {
 		}
 	}
 
-	// check if the version is referred by the next version
-	nextRootKey, err := cache.getRootKey(ndb, version+1)
-	if err != nil && !errors.Is(err, ErrVersionDoesNotExist) {
-		return err
-	}
-	if bytes.Equal(literalRootKey, nextRootKey) {
-		root, err := ndb.GetNode(nextRootKey)
+	// check if the root node of the version is still used by later versions,
+	// as their root (reference roots) or as a child of one of their nodes
+	if bytes.Equal(literalRootKey, rootKey) && !rootOrphaned {
+		root, err := ndb.GetNode(literalRootKey)
 		if err != nil {
 			return err
 		}
